@@ -602,6 +602,13 @@ pub fn mutator_list(p: &Profile) -> BoxedStrategy<Vec<MutK>> {
             out
         }),
         1 => Just(ALL_MUTK.to_vec()),
+        // a list may name a mutator more than once (with_mutators / with_mutator / --mutators accept any list)
+        1 => proptest::collection::vec(0usize..7, 2..=6).prop_map(|v| v.into_iter().map(|i| ALL_MUTK[i]).collect::<Vec<MutK>>()),
+        1 => (0usize..7, 2usize..=3, proptest::collection::vec(0usize..7, 0..=2)).prop_map(|(i, n, rest)| {
+            let mut out = vec![ALL_MUTK[i]; n];
+            out.extend(rest.into_iter().map(|j| ALL_MUTK[j]));
+            out
+        }),
     ];
     (base, 0u32..100)
         .prop_map(move |(mut v, roll)| {
